@@ -487,6 +487,8 @@ def execute(d, tag, seqs, std, stats, batch):
             for b in BUILDS:
                 if runs[b] is None:
                     bd = rec.get("builds", {}).get("opt:" + (b[4:] if b.startswith("wasm") else b[2:]), {})
+                    if bd.get("status") == "crashed":
+                        diagnose_crash(d, std, [o for sid in rec["sids"] for o in byid[sid]], bd)
                     tool_failure(f"no {b} run for program {rec['origin']}: " + json.dumps({k: v for k, v in bd.items() if k not in ("wasm", "ts")})[:600])
                 if runs[b]["overflow"]:
                     stats["overflow_runs"] = stats.get("overflow_runs", 0) + 1
@@ -502,6 +504,33 @@ def execute(d, tag, seqs, std, stats, batch):
                 stats["early_ends"] = stats.get("early_ends", 0) + 1
         pending = nxt
     return results
+
+
+def diagnose_crash(d, std, ops, bd):
+    """The compiler crashed on a generated program: find the operations that cannot be compiled on their own.
+    A std operation that has no compiled form has no result at all: reported against C18 with the blame on the
+    compiler (the crash itself is C03's subject)."""
+    names = sorted({o["op"] for o in ops})
+    probes = []
+    for n in names:
+        o = next(o for o in ops if o["op"] == n)
+        p = make_program([(0, [o])], std)
+        p["name"] = n
+        probes.append(p)
+    recs = pc.run_programs(d, "probe", probes, [0, 31])
+    culprits = [r for r in recs if r.get("front") == "accepted" and any(b.get("status") == "crashed" for b in r.get("builds", {}).values())]
+    if not culprits:
+        return
+    for r in culprits[:5]:
+        msg = next(b for b in r["builds"].values() if b.get("status") == "crashed")
+        path = save_replay(PID, "uncompilable-op", {"ops": [next(o for o in ops if o["op"] == r["name"])], "std_dir": STD_DIR},
+                           "the std operation can be compiled and executed",
+                           {"compiler_crash": {k: msg.get(k) for k in ("stage", "message")},
+                            "blame": "the compiler panics on the std source of this operation (C03 region); C18 cannot observe the operation"})
+        report_violation(PID, path)
+    write_evidence(PID, "?", "model_checking", {"states": 0, "transitions": 0, "traces_validated_against_impl": 0, "samples": [],
+                                                "uncompilable_operations": [r["name"] for r in culprits]}, [], 0, len(culprits))
+    raise SystemExit(1)
 
 
 def report_front_failure(rec):
@@ -541,7 +570,7 @@ def trace_rows(seqs, results):
 
 
 def slim_row(r):
-    return {k: v for k, v in r.items() if k != "lines"}
+    return {k: v for k, v in r.items() if k not in ("lines", "expected_parts")}
 
 
 # ------------------------------------------------------------------------------------------------
@@ -588,7 +617,10 @@ def judge(d, tag, rows, kfs, stats, chunk_rows=60000, jobs=6):
         marks = {"BAD": [], "KNOWN": []}
         for t, val in v.printed:
             if t in marks:
-                marks[t].append(a + int(val) - 1)
+                num, _, exp = val.partition(",")
+                marks[t].append(a + int(num) - 1)
+                if t == "BAD":
+                    rows[a + int(num) - 1]["expected_parts"] = exp.strip()
         if v.violated == "Conforms" or marks["BAD"]:
             if not marks["BAD"] or v.violated != "Conforms":
                 log(v.out[-3000:])
@@ -603,7 +635,7 @@ def judge(d, tag, rows, kfs, stats, chunk_rows=60000, jobs=6):
 
 def describe(row):
     """who printed what, for the replay file"""
-    return {"op": row["o"], "printed": row["lines"]}
+    return {"op": row["o"], "printed": row["lines"], "expected_parts_TLA": row.get("expected_parts")}
 
 
 def blame(row):
@@ -641,27 +673,79 @@ def minimise(d, seq, std, kfs, want_op):
     return cur
 
 
-def coverage_by_op(rows, dead_after):
-    c = {}
-    skip = set()
-    for i, r in enumerate(rows):
-        if r["ev"] == "op":
-            c[r["o"]["op"]] = c.get(r["o"]["op"], 0) + 1
-    return c
-
-
-def load_known_witnesses(kfs):
+def load_known_witnesses(kfs, excluded):
     out = []
     for k in kfs:
         w = k.get("witness")
-        if not w:
+        if not w or k.get("kind") == "uncompilable":
             continue
         p = w if os.path.isabs(w) else os.path.join(VERIF, w)
         try:
-            out.append((k, json.load(open(p))["ops"]))
+            ops = json.load(open(p))["ops"]
         except Exception as e:
             tool_failure(f"known finding witness {p} unreadable: {e}")
+        if any(o["op"] in excluded for o in ops):
+            log(f"[c18] witness of '{k.get('region')}' uses an operation that cannot be compiled at present; not run")
+            continue
+        out.append((k, ops))
     return out
+
+
+class Campaign:
+    """Executes slices of sequences and judges them (TLC runs of the previous slice overlap with the
+    compilation/execution of the next one); keeps only what is needed to report."""
+
+    def __init__(self, d, std, kfs):
+        self.d, self.std, self.kfs = d, std, kfs
+        self.stats = {}
+        self.per_op = {}
+        self.findings = []        # {"kind": bad|known, "sid", "origin", "prefix": ops, "row"}
+        self.samples = []
+        self.pool = ThreadPoolExecutor(max_workers=1)
+        self.pending = None
+        self.n = 0
+
+    def _judge(self, tag, seqs, origin, rows):
+        bad, known = judge(self.d, tag, rows, self.kfs, self.stats)
+        ops_of = dict(seqs)
+        nops = {sid: len(ops) for sid, ops in seqs}
+        for kind, idx in (("bad", bad), ("known", known)):
+            for i in idx:
+                r = rows[i]
+                self.stats["ops_skipped"] = self.stats.get("ops_skipped", 0) + nops[r["id"]] - r["i"] - 1
+                self.findings.append({"kind": kind, "sid": r["id"], "origin": origin, "prefix": ops_of[r["id"]][:r["i"] + 1], "row": r})
+        for r in rows:
+            if r["ev"] == "op":
+                self.per_op[r["o"]["op"]] = self.per_op.get(r["o"]["op"], 0) + 1
+                self.stats["ops_rows"] = self.stats.get("ops_rows", 0) + 1
+            else:
+                self.stats["sequences"] = self.stats.get("sequences", 0) + 1
+        if len(self.samples) < 3:
+            self.samples.append({"origin": origin, "trace_rows": [slim_row(r) for r in rows[1:4]]})
+
+    def submit(self, origin, seq_ops, batch):
+        """seq_ops: list of operation lists"""
+        if not seq_ops:
+            return
+        seqs = [(self.n + i, ops) for i, ops in enumerate(seq_ops)]
+        self.n += len(seqs)
+        tag = re.sub(r"\W", "", origin) + str(seqs[0][0])
+        results = execute(self.d, tag, seqs, self.std, self.stats, batch)
+        rows = trace_rows(seqs, results)
+        if self.pending:
+            self.pending.result()
+        self.pending = self.pool.submit(self._judge, tag, seqs, origin, rows)
+        return [sid for sid, _ in seqs]
+
+    def finish(self):
+        if self.pending:
+            self.pending.result()
+        self.pool.shutdown()
+
+
+def slices(xs, n):
+    for i in range(0, len(xs), n):
+        yield xs[i:i + n]
 
 
 def run(tier):
@@ -670,120 +754,124 @@ def run(tier):
     build_harness()
     std = std_sources()
     kfs = kf_list()
-    stats = {}
     quick = tier == "quick"
+    excluded = {op for k in kfs if k.get("kind") == "uncompilable" for op in k.get("ops", [])}
     # 1. the abstract model: algebraic laws over keys {1,2,3}, all operation sequences up to Depth
     mc = tlc("CollectionsMC", "CollectionsMCquick.cfg" if quick else "CollectionsMCthorough.cfg", workers=8,
              timeout=1500, tag="c18mc", xmx="8g")
     tlc_must_pass(mc, "Collections.tla model checking")
-    # 2. [BR] operation sequences enumerated by TLC
-    gen = tlc("CollGen", "CollGen2.cfg", workers=4, timeout=900, tag="c18gen")
-    tlc_must_pass(gen, "CollGen depth 2")
-    behs2 = behaviours_from(gen)
-    sim = tlc("CollGen", "CollGenSim.cfg", workers=1, timeout=900, tag="c18sim",
-              simulate=(f"num={150 if quick else 6000}", 7), extra=["-seed", str(SEED)])
-    behs_sim = behaviours_from(sim)
-    if not behs2 or not behs_sim:
-        log(gen.out[-1500:], sim.out[-1500:])
-        tool_failure("behaviour generation produced nothing")
-    names_gen = {o["op"] for b in behs2 for o in b}
-    missing = sorted(set(OPS) - names_gen)
-    if missing or names_gen - set(OPS):
-        tool_failure(f"operation tables of Collections.tla and checks/c18.py differ: {missing} / {sorted(names_gen - set(OPS))}")
-    rng = random.Random(SEED)
-    n_exh = len(behs2)
+    # 2. [BR] operation sequences enumerated by TLC: all of length 1, all (thorough) / a seeded sample (quick) of
+    #    length 2, simulated ones of length 6
+    gen1 = tlc("CollGen", "CollGen1.cfg", workers=1, timeout=600, tag="c18gen1")
+    tlc_must_pass(gen1, "CollGen depth 1")
+    behs1 = behaviours_from(gen1)
     if quick:
-        firsts = {}
-        for b in behs2:      # every single operation once (as the first step of some behaviour) ...
-            firsts.setdefault(json.dumps(b[0], sort_keys=True), b)
-        rest = [b for b in behs2 if firsts[json.dumps(b[0], sort_keys=True)] is not b]
-        behs2 = list(firsts.values()) + rng.sample(rest, 900)    # ... plus a seeded sample of the pairs
-        behs_sim = behs_sim[:150]
-    # 3. seeded random sequences, small and wide key range
-    n_rand = 1000 if quick else 24000
-    rand = []
-    for i in range(n_rand):
-        ln = rng.randint(1, 60)
-        rand.append(random_sequence(rng, ln, wide=(i % 2 == 1)))
-    witnesses = load_known_witnesses(kfs)
-    all_ops = [("tlc-depth2", b) for b in behs2] + [("tlc-simulated", b) for b in behs_sim] + \
-              [("random-small" if i % 2 == 0 else "random-wide", s) for i, s in enumerate(rand)] + \
-              [("known-finding-witness", w) for _, w in witnesses]
-    seqs = [(i, ops) for i, (_, ops) in enumerate(all_ops)]
-    origin = {i: src for i, (src, _) in enumerate(all_ops)}
-    wit_ids = {len(all_ops) - len(witnesses) + j: k for j, (k, _) in enumerate(witnesses)}
-    # long sequences first in their own batches (cheap ones are batched densely)
-    short = [s for s in seqs if len(s[1]) <= 8]
-    long_ = [s for s in seqs if len(s[1]) > 8]
-    rows, bad, known = [], [], []
-    for tag, part, batch in (("short", short, 150), ("long", long_, 25)):
-        if not part:
-            continue
-        r, b, k = run_and_judge(d, tag, part, std, kfs, stats, batch=batch)
-        off = len(rows)
-        rows += r
-        bad += [off + x for x in b]
-        known += [off + x for x in k]
-    seq_ops = dict(seqs)
+        gen2 = tlc("CollGen", "CollGen2.cfg", workers=1, timeout=600, tag="c18gen2",
+                   simulate=("num=1200", 3), extra=["-seed", str(SEED)])
+    else:
+        gen2 = tlc("CollGen", "CollGen2.cfg", workers=4, timeout=900, tag="c18gen2")
+        tlc_must_pass(gen2, "CollGen depth 2")
+    behs2 = behaviours_from(gen2)
+    sim = tlc("CollGen", "CollGenSim.cfg", workers=1, timeout=900, tag="c18sim",
+              simulate=(f"num={300 if quick else 8000}", 7), extra=["-seed", str(SEED + 1)])
+    behs_sim = behaviours_from(sim)
+    if not behs1 or not behs2 or not behs_sim:
+        log(gen1.out[-1500:], gen2.out[-1500:], sim.out[-1500:])
+        tool_failure("behaviour generation produced nothing")
+    names_gen = {o["op"] for b in behs1 for o in b}
+    if names_gen != set(OPS):
+        tool_failure(f"operation tables of Collections.tla and checks/c18.py differ: {sorted(set(OPS) ^ names_gen)}")
+    drop = lambda bs: [b for b in bs if not any(o["op"] in excluded for o in b)]
+    behs1, behs2, behs_sim = drop(behs1), drop(behs2), drop(behs_sim)
+    camp = Campaign(d, std, kfs)
+    witnesses = load_known_witnesses(kfs, excluded)
+    wit_sids = {}
+    if witnesses:
+        sids = camp.submit("known-finding-witness", [w for _, w in witnesses], 1)
+        wit_sids = {sid: k for sid, (k, _) in zip(sids, witnesses)}
+    for part in slices(behs1 + behs2, 20000):
+        camp.submit("tlc-exhaustive", part, 300)
+    for part in slices(behs_sim, 8000):
+        camp.submit("tlc-simulated", part, 100)
+    # 3. seeded random sequences of length <= 60, small and wide key range
+    rng = random.Random(SEED)
+    n_rand = 1500 if quick else 36000
+    done = 0
+    budget = 150 if quick else 1500      # seconds for this phase; the count executed is reported
+    t_r = time.time()
+    while done < n_rand and time.time() - t_r < budget:
+        n = min(1500 if quick else 3000, n_rand - done)
+        part = [random_sequence(rng, rng.randint(1, 60), wide=((done + i) % 2 == 1), avoid=excluded) for i in range(n)]
+        camp.submit("random", part, 25)
+        done += n
+    camp.finish()
+    stats = camp.stats
     fails = 0
-    # known findings: reported while their witness still deviates
-    hit_by = {}
-    for i in known:
-        op = rows[i]["o"]["op"]
-        for k in kfs:
-            if op in k.get("ops", []):
-                hit_by.setdefault(k.get("region", k["what"][:30]), []).append(i)
+    # known findings: reported while they still reproduce
+    known = [f for f in camp.findings if f["kind"] == "known"]
     for k in kfs:
-        reg = k.get("region", k["what"][:30])
-        wit_hit = [i for i in known if rows[i]["id"] in wit_ids and wit_ids[rows[i]["id"]] is k]
-        if wit_hit or hit_by.get(reg):
-            report_known(PID, f"{k['what']} [{len(hit_by.get(reg, []))} sequences cut short at this defect]")
+        reg = k.get("region", "?")
+        if k.get("kind") == "uncompilable":
+            report_known(PID, f"{k['what']} [operations {k.get('ops')} not executed]")
+            continue
+        hits = [f for f in known if f["row"]["o"]["op"] in k.get("ops", []) and
+                (not k.get("line") or k["line"] in f["row"]["lines"])]
+        wit = [f for f in known if wit_sids.get(f["sid"]) is k]
+        if hits or wit:
+            report_known(PID, f"{k['what']} [region {reg}; {len(hits)} sequences cut short there in this run]")
         else:
             log(f"[c18] known finding '{reg}' did not reproduce in this run (fixed? then mark it fixed in known-findings.json)")
     # violations: up to 5 distinct operations reported, each minimised
+    bad = [f for f in camp.findings if f["kind"] == "bad"]
+    bad.sort(key=lambda f: len(f["prefix"]))
     seen_ops = set()
-    for i in bad:
-        row = rows[i]
+    for f in bad:
+        row = f["row"]
         op = row["o"]["op"]
         if op in seen_ops or fails >= 5:
             continue
         seen_ops.add(op)
-        sid = row["id"]
-        prefix = seq_ops[sid][:row["i"] + 1]
+        prefix = f["prefix"]
         small = minimise(d, prefix, std, kfs, op) if len(prefix) > 1 and not os.environ.get("VERIF_C18_NOMIN") else prefix
-        path = save_replay(PID, "opseq", {"source": origin[sid], "ops": small, "original_length": len(prefix), "std_dir": STD_DIR},
+        path = save_replay(PID, "opseq", {"source": f["origin"], "ops": small, "original_length": len(prefix), "std_dir": STD_DIR},
                            "every build prints the canonical rendering of the abstract result (CollTrace!Conforms)",
                            {"failing_op": describe(row), "blame": blame(row)})
         report_violation(PID, path)
         fails += 1
-    n_bad_seqs = len({rows[i]["id"] for i in bad})
-    per_op = coverage_by_op(rows, None)
-    sample_rows = [slim_row(r) for r in rows if r["ev"] == "op"][:2]
+    per_op = camp.per_op
     coverage = {
         "states": mc.distinct, "transitions": mc.generated,
         "traces_validated_against_impl": stats.get("sequences", 0),
-        "samples": [{"ops": long_[0][1][:6] if long_ else short[0][1]}, {"trace_rows": sample_rows}],
-        "model_depth": mc.depth - 1, "model_universe": "keys {1,2,3}, values {0,1}, lists up to 4",
-        "tlc_generated_behaviours": {"depth2_exhaustive": n_exh, "depth2_executed": len(behs2), "simulated_len6_executed": len(behs_sim)},
-        "random_sequences": n_rand, "random_max_length": 60, "key_ranges": ["0..7", f"+-{WIDE}"],
-        "operations_executed_and_validated": stats.get("ops_rows", 0),
-        "operations_by_name_min": min(per_op.values()) if per_op else 0, "operation_names_covered": len(per_op),
-        "operation_names_total": len(OPS),
+        "samples": camp.samples,
+        "model_depth": mc.depth - 1, "model_universe": "keys {1,2,3}, values {0,1}, lists up to 4 elements, all 79 operations",
+        "tlc_generated_behaviours": {"length1_exhaustive": len(behs1), "length2": len(behs2), "length2_exhaustive": not quick,
+                                     "simulated_length6": len(behs_sim)},
+        "random_sequences": done, "random_max_length": 60, "key_ranges": ["0..7", f"+-{WIDE}"],
+        "operations_executed": stats.get("ops_rows", 0),
+        "operations_validated": stats.get("ops_rows", 0) - stats.get("ops_skipped", 0),
+        "operations_not_judged_after_a_deviation": stats.get("ops_skipped", 0),
+        "operation_names_covered": len(per_op), "operation_names_total": len(OPS),
+        "operations_by_name_min": min(per_op.values()) if per_op else 0,
+        "operations_never_executed": sorted(set(OPS) - set(per_op)),
         "programs_compiled": stats.get("programs", 0), "builds_per_program": BUILDS,
         "programs_ended_early": stats.get("early_ends", 0), "sequences_not_executed": stats.get("not_executed", 0),
         "runs_with_i32_overflow": stats.get("overflow_runs", 0),
         "trace_states_checked_by_tlc": stats.get("tlc_states", 0),
-        "sequences_deviating": n_bad_seqs, "sequences_cut_short_by_known_findings": len({rows[i]["id"] for i in known}),
+        "sequences_deviating": len({f["sid"] for f in bad}),
+        "sequences_cut_short_by_known_findings": len({f["sid"] for f in known}),
         "open_known_findings": [k.get("region") for k in kfs], "std_dir": STD_DIR,
         "exhaustive": False,
     }
     if stats.get("overflow_runs"):
         log(f"[c18] WARNING: {stats['overflow_runs']} runs saw a 32-bit overflow (driver bound too loose?)")
+    if set(OPS) - set(per_op) - excluded:
+        tool_failure(f"vacuity: operations never executed: {sorted(set(OPS) - set(per_op) - excluded)}")
     write_evidence(PID, tier, "model_checking", coverage,
                    ["wasm_interp (own WasmGC interpreter) and ts_run (type eraser + node) observe the compiled programs faithfully; a compiler defect (C01/C02/C04) can surface here, the replay file says whether the builds agree",
                     "the printed line is parsed into integer parts by checks/c18.py (strict per-operation syntax); the comparison with the abstract result is evaluated by TLC (CollTrace.tla)",
                     "observation of a register uses the library's own entries()/elements() and List.map; callbacks are the fixed ones of Collections.tla",
                     "keys stay within +-(2^30-4096) so that Int.compare's subtraction does not overflow",
+                    "after a deviation the rest of that sequence is not judged (registers no longer comparable)",
                     "TLC 1.8.0 and the CommunityModules Json/IOUtils/SequencesExt overrides are correct"],
                    time.time() - t0, fails)
     return 1 if fails else 0
